@@ -55,6 +55,22 @@ var c01FileCases = []faCase{
 		patch: "@@\nvar l identifier\n@@\n-break l\n+continue l\n",
 		minus: "package p\n\nfunc f(c bool) {\nout:\n\tfor {\n\t\tfor {\n\t\t\t⟦break «l:out»⟧\n\t\t}\n\t\tif c {\n\t\t\tbreak\n\t\t}\n\t\tswitch {\n\t\tcase c:\n\t\t\tcontinue\n\t\t}\n\t}\n}\n",
 		plus:  "package p\n\nfunc f(c bool) {\nout:\n\tfor {\n\t\tfor {\n\t\t\t⟦continue «l»⟧\n\t\t}\n\t\tif c {\n\t\t\tbreak\n\t\t}\n\t\tswitch {\n\t\tcase c:\n\t\t\tcontinue\n\t\t}\n\t}\n}\n"},
+	{name: "star-operand-needs-parens",
+		patch: "@@\nvar x expression\n@@\n-deref(x)\n+*x\n",
+		minus: "package p\n\nfunc f(p *int, q []*int) int {\n\treturn ⟦deref(«x:p»)⟧ + ⟦deref(«x:q[0]»)⟧\n}\n\nvar g = ⟦deref(«x:a + b»)⟧\n",
+		plus:  "package p\n\nfunc f(p *int, q []*int) int {\n\treturn ⟦*«x»⟧ + ⟦*«x»⟧\n}\n\nvar g = ⟦*(«x»)⟧\n"},
+	{name: "star-operand-replaced-by-binary",
+		patch: "@@\nvar p, i expression\n@@\n-at(p, i)\n+p + i\n",
+		minus: "package p\n\nvar v = *⟦at(«p:q», «i:1»)⟧\n\nvar w = f(⟦at(«p:r», «i:2»)⟧)\n",
+		plus:  "package p\n\nvar v = *(⟦«p» + «i»⟧)\n\nvar w = f(⟦«p» + «i»⟧)\n"},
+	{name: "stmt-inside-rewritten-compound", extra: 2,
+		patch: "@@\nvar x expression\n@@\n-if x == true {\n+if x {\n   ...\n }\n",
+		minus: "package p\n\nfunc f(a, b bool) {\n\tif a == true {\n\t\t⟦if «x:b» == true {\n\t\t\t«d1:foo()»\n\t\t}⟧\n\t}\n}\n\nfunc g(a, b bool) {\n\tfor a == true {\n\t\t⟦if «x:b» == true {\n\t\t\t«d1:foo()»\n\t\t}⟧\n\t}\n\tif b == true {\n\t\tbar()\n\t}\n}\n",
+		plus:  "package p\n\nfunc f(a, b bool) {\n\tif a {\n\t\t⟦if «x» {\n\t\t\t«d1»\n\t\t}⟧\n\t}\n}\n\nfunc g(a, b bool) {\n\tfor a == true {\n\t\t⟦if «x» {\n\t\t\t«d1»\n\t\t}⟧\n\t}\n\tif b {\n\t\tbar()\n\t}\n}\n"},
+	{name: "decl-sibling-lists-share-metavar", loose: true,
+		patch: "@@\nvar x identifier\n@@\n func f(..., x T, ...) {\n   ...\n-  use(x)\n+  use2(x)\n   ...\n }\n",
+		minus: "package p\n\n⟦func f(«d1:a S», «x:b» T) {\n\t«d2:pre()»\n\tuse(«x:b»)\n}⟧\n",
+		plus:  "package p\n\n⟦func f(«d1», «x» T) {\n\t«d2»\n\tuse2(«x»)\n}⟧\n"},
 	{name: "stmt-in-case-and-select",
 		patch: "@@\nvar x identifier\n@@\n-x.Lock()\n+lock(x)\n",
 		minus: "package p\n\nfunc f(c chan int) {\n\tswitch {\n\tcase true:\n\t\t⟦«x:mu».Lock()⟧\n\t}\n\tselect {\n\tcase <-c:\n\t\tpre()\n\t\t⟦«x:rw».Lock()⟧\n\t}\n}\n",
@@ -107,14 +123,24 @@ func VerifC01File() {
 		allWant = nd.And(allWant, r.want[k])
 		n = n + nd.Ite(r.want[k], 1, 0)
 	}
+	if c.extra > 0 {
+		anyWant = true
+	}
+	if c.loose {
+		nd.Assert(nd.Implies(allWant, ok), c.name+": the file matches iff it contains an instance")
+		if !nd.And(allWant, ok) {
+			nd.Reach("matched")
+			return
+		}
+	}
 	nd.Assert(nd.Iff(ok, anyWant), c.name+": the file matches iff it contains an instance")
 	if ok {
 		got := c01CountMatches(d)
 		if stmtPattern {
 			// one match per block/case/comm clause that contains an instance (each site sits in its own block here)
-			nd.Assert(got == n, c.name+": a block containing an instance was not found (or a block without one was)")
+			nd.Assert(got == n+c.extra, c.name+": a block containing an instance was not found (or a block without one was)")
 		} else {
-			nd.Assert(got == n, c.name+": number of rewritten sites differs from the number of instances")
+			nd.Assert(got == n+c.extra, c.name+": number of rewritten sites differs from the number of instances")
 		}
 	}
 	nd.Reach("matched")
